@@ -49,7 +49,7 @@ def spec_table(ctx, cfg, coverage=False):
     return list(table.values()), r
 
 
-def quick_sample(entries, seed, per_stratum=3, frac=8):
+def quick_sample(entries, seed, per_stratum=2, frac=10):
     """Quick tier: all construct cases, and of the call-only cases a seeded 1/frac sample that still
     hits every stratum (context kind, callee kind, argument mix, position, spec verdict, own/outer scope
     of the violated requirement, dagger in context)."""
